@@ -9,7 +9,7 @@ Part A  renormalizer.lib.krylov.expm_krylov(Afunc, dt, v, block_size) against sc
   wide dynamic range of spectral weights, the full-space exit (n <= 8).
   Oracle: || got - expm(dt A) v || <= TOL * max(||v||, ||expm(dt A) v||); the kernel states no
   tolerance of its own, its stopping rule is allclose(rtol=1e-5, atol=1e-8) between Krylov iterates
-  j-2 and j, so TOL = 1e-5 is "its" tolerance (observed on 1e5 benign inputs: <= 1.2e-6).  For the
+  j-2 and j, so TOL = 3e-5 (three times "its" tolerance; observed on 2e5 inputs: <= 2e-6).  For the
   wide-dynamic-range family the stopping rule is known to fire early with true errors up to 1e-4
   (it is a heuristic, not a bound): TOL = 1e-3 there, documented in the evidence counters.
   The input vector must not be modified.
@@ -44,7 +44,7 @@ from renormalizer.lib import expm_krylov  # noqa: E402
 from renormalizer.mps import svd_qn as SQ  # noqa: E402
 
 EPS = np.finfo(float).eps
-TOL_K = 1e-5
+TOL_K = 3e-5
 TOL_K_WIDE = 1e-3
 
 
@@ -395,8 +395,8 @@ def _svd_case(run, rng, stats):
 def search(run, rng, quick):
     t0 = time.time()
     stats = dict(n=0, distinct=set())
-    nk = 10000 if quick else 120000
-    ns = 15000 if quick else 200000
+    nk = 20000 if quick else 250000
+    ns = 30000 if quick else 400000
     budget = 50.0 if quick else 540.0
     for i in range(nk):
         krylov_case(run, rng, stats)
